@@ -11,6 +11,14 @@ Proof. apply list_eq_dec. apply N.eq_dec. Qed.
 Lemma str_eqb_neq : forall a b : str, a <> b -> str_eqb a b = false.
 Proof. intros a b H. destruct (str_eqb a b) eqn:E; [|reflexivity]. apply str_eqb_eq in E. contradiction. Qed.
 
+Lemma NoDup_app_disj : forall (A : Type) (l1 l2 : list A),
+  NoDup l1 -> NoDup l2 -> (forall k, In k l1 -> In k l2 -> False) -> NoDup (l1 ++ l2).
+Proof.
+  induction l1 as [|a l1 IH]; intros l2 H1 H2 Hd; [exact H2|]. inversion H1; subst. cbn [app]. constructor.
+  - intro Hin. apply in_app_or in Hin. destruct Hin as [Hin|Hin]; [contradiction | apply (Hd a); [left; reflexivity | exact Hin]].
+  - apply IH; try assumption. intros k Hk1 Hk2. apply (Hd k); [right; exact Hk1 | exact Hk2].
+Qed.
+
 Section Assoc.
   Context {V : Type}.
   Lemma assoc_in_keys : forall k (l : list (str * V)) v, assoc str_eqb k l = Some v -> In k (map fst l).
@@ -425,5 +433,133 @@ Section L.
           rewrite Hn. reflexivity.
         * apply (proj2 (same_list_unfold _ _ _ _ _)). exact Hs2.
         * apply (proj2 (valid_list_unfold _ _ _ _)). split; [|exact Hv2]. intros Hr Hnil. subst l'. inversion Hs2; subst. apply Hreq; auto.
+  Qed.
+
+  Lemma fields_loop : forall n, RT n -> forall dyn fs c pre1 pre2, NoDup (map fst fs) ->
+    forall fs2, incl fs2 fs -> NoDup (map fst fs2) -> Forall (fun kn => (nsize F (snd kn) <= n)%nat) fs2 -> Forall (valid_pair c) fs2 ->
+    forall w cj, c_dyn cj = [] -> map fst (c_data cj) = map fst fs ->
+    exists ts w' c', tree_fields None (c_data c) pre1 fs2 = Ok ts /\
+      load_keys ts w pre2 cj fs dyn = (w', c', OOk) /\
+      c_dyn c' = [] /\ map fst (c_data c') = map fst fs /\
+      Forall (slot_pair c' c) fs2 /\ Forall (valid_pair c') fs2 /\
+      (forall k, ~ In k (map fst fs2) -> dget k (c_data c') = dget k (c_data cj)).
+  Proof.
+    intros n HRT dyn fs c pre1 pre2 Hnd. induction fs2 as [|[k nd] r IH]; intros Hincl Hnd2 Hsz Hv w cj Hdy Hkeys.
+    - exists [], w, cj. repeat split; try constructor; assumption.
+    - inversion Hnd2 as [|? ? Hnk Hnd2']; subst. inversion Hsz as [|? ? Hsz1 Hsz']; subst. inversion Hv as [|? ? Hv1 Hv']; subst.
+      cbn [snd] in Hsz1. unfold valid_pair in Hv1. cbn [fst snd] in Hv1.
+      destruct (dget k (c_data c)) as [v|] eqn:Hg; [|destruct Hv1].
+      assert (Hin : In (k, nd) fs) by (apply Hincl; left; reflexivity).
+      assert (Hf : fget F k fs = Some nd) by (apply fget_in; assumption).
+      destruct (slot_rt n HRT nd v Hsz1 Hv1 k fs dyn Hf (path_join pre1 k) pre2 w cj Hdy) as (t & w1 & va & Ht & Hone & Hsame & Hval).
+      assert (Hkin : In k (map fst (c_data cj))) by (rewrite Hkeys; apply in_map_iff; exists (k, nd); split; [reflexivity | exact Hin]).
+      destruct (IH (fun x Hx => Hincl x (or_intror Hx)) Hnd2' Hsz' Hv' w1 (store cj k va))
+        as (ts & w' & c' & Hts & Hld & Hdy' & Hkeys' & Hsp & Hvp & Hfr).
+      { rewrite store_dyn_eq. exact Hdy. }
+      { rewrite store_keys by exact Hkin. exact Hkeys. }
+      assert (Hk' : dget k (c_data c') = Some va) by (rewrite (Hfr k Hnk); apply dget_store).
+      exists ((PStr k, t) :: ts), w', c'. split; [|split; [|split; [|split; [|split; [|split]]]]].
+      + cbn [tree_fields]. rewrite Hg, Ht, Hts. reflexivity.
+      + rewrite load_keys_cons, Hone. exact Hld.
+      + exact Hdy'.
+      + exact Hkeys'.
+      + constructor; [|exact Hsp]. unfold slot_pair. cbn [fst snd]. rewrite Hk', Hg. exact Hsame.
+      + constructor; [|exact Hvp]. unfold valid_pair. cbn [fst snd]. rewrite Hk'. exact Hval.
+      + intros k2 Hk2n. cbn [map fst] in Hk2n. rewrite Hfr by (intro; apply Hk2n; right; assumption).
+        apply dget_store_other. intro; subst. apply Hk2n. left; reflexivity.
+  Qed.
+
+  Lemma smem_notin : forall k l, ~ In k l -> smem k l = false.
+  Proof.
+    unfold smem. induction l as [|x l IH]; intro H; [reflexivity|]. cbn [existsb].
+    rewrite str_eqb_neq by (intro; subst; apply H; left; reflexivity). apply IH. intro; apply H; right; assumption.
+  Qed.
+
+  Lemma dyn_loop : forall fs c pre dyn dy2,
+    (forall k, In k dy2 -> fget F k fs = None /\ exists x, dget k (c_data c) = Some (VLeaf x)) ->
+    (dyn = false -> dy2 = []) ->
+    forall w cj, NoDup (c_dyn cj ++ dy2) -> (forall k, In k dy2 -> ~ In k (map fst (c_data cj))) ->
+    exists c', load_keys (dyn_entries (c_data c) dy2) w pre cj fs dyn = (w, c', OOk) /\
+      c_dyn c' = c_dyn cj ++ dy2 /\ map fst (c_data c') = map fst (c_data cj) ++ dy2 /\
+      (forall k, In k dy2 -> dget k (c_data c') = dget k (c_data c)) /\
+      (forall k, ~ In k dy2 -> dget k (c_data c') = dget k (c_data cj)).
+  Proof.
+    intros fs c pre dyn. induction dy2 as [|k r IH]; intros Hdy Hdyn w cj Hnd Hfresh.
+    - exists cj. rewrite !app_nil_r. repeat split; try reflexivity. intros k [].
+    - destruct dyn; [|specialize (Hdyn eq_refl); discriminate].
+      destruct (Hdy k (or_introl eq_refl)) as [Hf [x Hx]].
+      assert (Hkn : ~ In k (c_dyn cj)).
+      { intro Hin. apply NoDup_remove_2 in Hnd. apply Hnd. apply in_or_app. left; exact Hin. }
+      assert (Hkr : ~ In k r).
+      { intro Hin. apply NoDup_remove_2 in Hnd. apply Hnd. apply in_or_app. right; exact Hin. }
+      set (c1 := store_dyn cj k (VLeaf x)).
+      assert (Hc1d : c_dyn c1 = c_dyn cj ++ [k]).
+      { unfold c1. destruct cj as [i d df dy]. cbn [store_dyn c_dyn] in *. unfold sadd. rewrite smem_notin by exact Hkn. reflexivity. }
+      assert (Hc1k : map fst (c_data c1) = map fst (c_data cj) ++ [k]).
+      { unfold c1. destruct cj as [i d df dy]. cbn [store_dyn c_data] in *. apply assoc_set_keys_notin. apply Hfresh. left; reflexivity. }
+      destruct (IH (fun k' Hk' => Hdy k' (or_intror Hk')) (fun _ => ltac:(discriminate)) w c1) as (c' & Hld & Hd' & Hk' & Hin' & Hout').
+      { rewrite Hc1d, <- app_assoc. exact Hnd. }
+      { intros k' Hk'r. rewrite Hc1k. intro Hin. apply in_app_or in Hin. destruct Hin as [Hin|[Hin|[]]].
+        - apply (Hfresh k' (or_intror Hk'r)). exact Hin.
+        - subst k'. contradiction. }
+      exists c'. split; [|split; [|split; [|split]]].
+      + cbn [dyn_entries flat_map]. rewrite Hx. cbn [app]. rewrite load_keys_cons.
+        unfold load_one. rewrite Hf. rewrite set_value_unfold. unfold set_value_body. rewrite Hf. exact Hld.
+      + rewrite Hd', Hc1d, <- app_assoc. reflexivity.
+      + rewrite Hk', Hc1k, <- app_assoc. reflexivity.
+      + intros k2 [Hk2|Hk2]; [subst k2|apply Hin'; exact Hk2].
+        rewrite Hout' by exact Hkr. unfold c1. destruct cj as [i d df dy]. cbn [store_dyn c_data]. rewrite dget_dset_eq. symmetry; exact Hx.
+      + intros k2 Hk2. rewrite Hout' by (intro; apply Hk2; right; assumption).
+        unfold c1. destruct cj as [i d df dy]. cbn [store_dyn c_data]. apply dget_dset_neq. apply str_eqb_neq. intro; subst. apply Hk2. left; reflexivity.
+  Qed.
+
+  Lemma fget_none_notin : forall k (fs : list (str * node)), fget F k fs = None -> ~ In k (map fst fs).
+  Proof. intros. apply assoc_none_notin. assumption. Qed.
+
+  Lemma RT_all : forall n, RT n.
+  Proof.
+    induction n as [|n IHn]; intros dyn vs fs Hsz c Hv; [lia|].
+    intros pre1 pre2 w w0 c0 Hb.
+    destruct Hv as (Htidy & Hnd & Hf & Hvr). destruct Htidy as (Hdn & Hdk & Hyn & Hyv & Hyd).
+    assert (Hc0 : c_dyn c0 = [] /\ map fst (c_data c0) = map fst fs).
+    { unfold Config.build_cfg in Hb. destruct (build_fields F ldefault lcallable _ fs) as [w1 d] eqn:E. inversion Hb; subst.
+      cbn [c_dyn c_data]. split; [reflexivity | eapply build_fields_keys; eauto]. }
+    destruct Hc0 as [Hc0d Hc0k].
+    assert (Hszs : Forall (fun kn => (nsize F (snd kn) <= n)%nat) fs).
+    { apply Forall_forall. intros [k nd] Hin. cbn [snd]. pose proof (fsize_in F _ _ _ Hin). lia. }
+    destruct (fields_loop n IHn dyn fs c pre1 pre2 Hnd fs (incl_refl fs) Hnd Hszs Hf w0 c0 Hc0d Hc0k)
+      as (ts & w1 & c1 & Hts & Hld1 & Hd1 & Hk1 & Hsp1 & Hvp1 & _).
+    assert (Hdisj : forall k, In k (c_dyn c) -> ~ In k (map fst fs)) by (intros k Hk; apply fget_none_notin; apply (Hyv k Hk)).
+    destruct (dyn_loop fs c pre2 dyn (c_dyn c) Hyv Hyd w1 c1) as (c' & Hld2 & Hd2 & Hk2 & Hin2 & Hout2).
+    { rewrite Hd1. exact Hyn. }
+    { intros k Hk. rewrite Hk1. apply Hdisj. exact Hk. }
+    rewrite Hd1 in Hd2. cbn [app] in Hd2. rewrite Hk1 in Hk2.
+    assert (Hfs_out : forall k nd, In (k, nd) fs -> dget k (c_data c') = dget k (c_data c1)).
+    { intros k nd Hin. apply Hout2. intro Hk. apply (Hdisj k Hk). apply in_map_iff. exists (k, nd). split; [reflexivity | exact Hin]. }
+    assert (Hsame : same_cfg fs c' c).
+    { split; [|split].
+      - apply Forall_forall. intros [k nd] Hin. rewrite Forall_forall in Hsp1. specialize (Hsp1 _ Hin).
+        unfold slot_pair in *. cbn [fst snd] in *. rewrite (Hfs_out k nd Hin). exact Hsp1.
+      - exact Hd2.
+      - apply Forall_forall. intros k Hk. destruct (Hyv k Hk) as [_ [x Hx]]. exists x. split; [rewrite (Hin2 k Hk); exact Hx | exact Hx]. }
+    exists (ts ++ dyn_entries (c_data c) (c_dyn c)), w1, c'. split; [|split; [|split]].
+    - unfold cfg_tree. rewrite Hts. reflexivity.
+    - rewrite (load_keys_app _ _ _ _ _ _ _ _ _ Hld1). exact Hld2.
+    - exact Hsame.
+    - assert (Hnd' : NoDup (map fst (c_data c'))).
+      { rewrite Hk2. apply NoDup_app_disj; try assumption. intros k H1 H2. apply (Hdisj k H2). exact H1. }
+      assert (Hsub' : forall k, In k (map fst (c_data c')) -> In k (map fst fs) \/ In k (c_dyn c')).
+      { intros k Hk. rewrite Hk2 in Hk. rewrite Hd2. apply in_app_or. exact Hk. }
+      split; [|split; [|split]].
+      + split; [exact Hnd' | split; [exact Hsub' | split; [rewrite Hd2; exact Hyn | split]]].
+        * intros k Hk. rewrite Hd2 in Hk. destruct (Hyv k Hk) as [H1 [x Hx]]. split; [exact H1 | exists x; rewrite (Hin2 k Hk); exact Hx].
+        * intro H. rewrite Hd2. apply Hyd. exact H.
+      + exact Hnd.
+      + apply Forall_forall. intros [k nd] Hin. rewrite Forall_forall in Hvp1. specialize (Hvp1 _ Hin).
+        unfold valid_pair in *. cbn [fst snd] in *. rewrite (Hfs_out k nd Hin). exact Hvp1.
+      + destruct Hsame as (Hs1 & Hs2 & Hs3). intros Hen m Hm.
+        rewrite (same_enabled c' c fs Hs1) in Hen.
+        rewrite (vrun_lookup m _ (leaf_values (c_data c))); [apply Hvr; assumption|].
+        apply (same_vlookup fs c' c); try assumption. split; [|split]; assumption.
   Qed.
 End L.
